@@ -1388,7 +1388,7 @@ func (vm *VM) run() (Addr, bool) {
 							vm.setFromReflectValue(b, iter.Key())
 						}
 						if c != 0 {
-							vm.setFromReflectValue(c, iter.Value())
+							vm.setFromReflectValue(c, copyOfElement(iter.Value()))
 						}
 						vm.pc = bodyAddress
 						addr, breakOut := vm.run()
@@ -1419,7 +1419,7 @@ func (vm *VM) run() (Addr, bool) {
 							break
 						}
 						if b != 0 {
-							vm.setFromReflectValue(b, u)
+							vm.setFromReflectValue(b, copyOfElement(u))
 						}
 						vm.pc = bodyAddress
 						addr, breakOut := vm.run()
@@ -1448,7 +1448,7 @@ func (vm *VM) run() (Addr, bool) {
 							vm.setInt(b, int64(i))
 						}
 						if c != 0 {
-							vm.setFromReflectValue(c, v.Index(i))
+							vm.setFromReflectValue(c, copyOfElement(v.Index(i)))
 						}
 						vm.pc = bodyAddress
 						addr, breakOut := vm.run()
